@@ -7,6 +7,65 @@ U = 'parsec/class/info.c'
 RESIZE = 'parsec_ioa_resize_and_rdlock'
 
 
+def check_max_id(ctx, u):
+    """Object arrays are sized max_id + 1 (array_init, resize): max_id must stay >= every live identifier.  Identifiers
+    are recycled (register takes the first hole), so max_id may only be raised by a register (never set to a smaller
+    id) and only lowered by the unregister of the maximum itself, to the maximum of the remaining entries."""
+    rd = ctx.rule('R41.d', 'registry max_id is the maximum of the live identifiers: raised only by a max-update, lowered only when the maximum is unregistered', floor=4)
+    def is_gt(a, big, small):
+        # big > small  /  small < big
+        return a.k == 'bin' and ((a.op == '>' and a.ch[0].s == big and a.ch[1].s == small) or (a.op == '<' and a.ch[0].s == small and a.ch[1].s == big))
+    for fname, f in u.funcs().items():
+        if not f.file.endswith('info.c'):
+            continue
+        for s_ in f.stores():
+            if not (s_.lhs.k == 'mem' and s_.lhs.n == 'max_id'):
+                continue
+            ctx.functions_analysed.add(fname)
+            if s_.rhs is not None and s_.rhs.cv == -1:
+                rd.ok(s_.loc, '%s: max_id = -1 (empty registry)' % fname)
+                continue
+            field = s_.lhs.s; val = s_.rhs.s if s_.rhs is not None else ''
+            raised = f.guarded_by(s_.point, lambda a, t: t is True and is_gt(a, val, field))
+            if raised:
+                rd.ok(s_.loc, '%s: %s = %s only when %s > %s' % (fname, field, val, val, field))
+                continue
+            # lowering: only when the identifier being removed is the maximum, to the maximum of the others
+            removed = [p_['n'] for p_ in f.params if (p_.get('ty') or '').startswith('parsec_info_id_t')]
+            eq = f.guarded_by(s_.point, lambda a, t: t is True and a.k == 'bin' and a.op == '==' and field in (a.ch[0].s, a.ch[1].s) and (set((a.ch[0].s, a.ch[1].s)) - {field}) <= set(removed))
+            acc = [x for x in f.stores() if x.lhs.s == val and x.lhs.k == 'ref']
+            upd = [x for x in acc if not (x.rhs is not None and x.rhs.cv == -1)]
+            okacc = bool(upd) and all(x.rhs is not None and x.rhs.k == 'mem' and x.rhs.n == 'iid' and f.guarded_by(x.point, lambda a, t, x=x: t is True and is_gt(a, x.rhs.s, val)) for x in upd) \
+                and any(x.rhs is not None and x.rhs.cv == -1 for x in acc)
+            # the scan may stop early only when the removed id is not the maximum
+            brk = [b for b in f.stmts_of_kind('break')]
+            okbrk = True
+            for b in brk:
+                pt = _point_of(f, b)
+                if pt is None:
+                    continue
+                g = [(a, t) for a, t, _ in f.guards(pt) if a.k == 'bin' and a.op in ('==', '!=') and field in (a.ch[0].s, a.ch[1].s)]
+                if not any((a.op == '!=' and t is True) or (a.op == '==' and t is False) for a, t in g):
+                    okbrk = False
+            rd.expect(bool(eq) and okacc and okbrk, 'lower:%s' % fname, s_.loc,
+                      '%s may lower %s only when the identifier it removes is the maximum, to the maximum iid of the remaining entries (scan not cut short in that case); a store that is neither that nor a max-update can leave live identifiers above max_id'
+                      % (fname, field), note='%s: %s lowered to the max of the remaining entries, only when the maximum is removed' % (fname, field))
+    # consumers size by max_id + 1
+    g = u.func('parsec_info_object_array_init'); ctx.functions_analysed.add(g.name)
+    ki = [s_ for s_ in g.stores() if s_.lhs.k == 'mem' and s_.lhs.n == 'known_infos']
+    rd.expect(len(ki) == 1 and aff.norm(ki[0].rhs) == aff.Poly.atom('%s->max_id' % g.params[1]['n']) + aff.Poly.const(1), 'array_init:size', ki[0].loc if ki else g.where(),
+              'a new object array must hold max_id + 1 slots', note='array_init: known_infos = max_id + 1')
+
+
+def _point_of(f, nid):
+    for bid, b in f.blocks.items():
+        if b.get('term') == nid:
+            return (bid, len(b['elems']))
+        if nid in b['elems']:
+            return (bid, b['elems'].index(nid))
+    return None
+
+
 def _run(ctx):
     ctx.explanation = ('Static clauses on info.c: (a) parsec_ioa_resize_and_rdlock returns holding the read lock of the object array on every path; the array is reallocated only under the write lock after '
                        're-checking the size; growth zero-fills exactly the new slots [known_infos, new size) (element index and byte count checked by affine normalisation); (b) set / get / test_and_set touch '
@@ -17,6 +76,8 @@ def _run(ctx):
     ra = ctx.rule('R41.a', 'resize: returns read-locked; realloc only write-locked after re-check; new slots zero-filled exactly', floor=5)
     rb = ctx.rule('R41.b', 'slot accesses under the array lock; pairing; test_and_set by CAS', floor=8)
     rc = ctx.rule('R41.c', 'registry list traversals and id allocation under the list lock; pairing', floor=8)
+
+    check_max_id(ctx, u)
 
     f = u.func(RESIZE); ctx.functions_analysed.add(f.name)
     oa = f.params[0]['n']; iid = f.params[1]['n']
